@@ -105,7 +105,8 @@ def check_call_cli(run, rt, infile, outfile, argv, expect, in_log2):
     checks = [("method", got.get("method", "threshold"), expect["method"]), ("ploidy", got.get("ploidy", 2), expect["ploidy"]),
               ("purity", got.get("purity"), expect["purity"]), ("reference sex", bool(got.get("is_haploid_x_reference", False)), bool(expect["male_ref"])),
               ("PAR genome", got.get("diploid_parx_genome"), expect["par"]), ("filters", list(got.get("filters") or []), list(expect["filters"] or []))]
-    if expect["female"] is not None:
+    # the sample's sex is read by do_call only when it rescales for purity; elsewhere whatever the command passes is immaterial
+    if expect["female"] is not None and expect["purity"] and expect["purity"] < 1.0:
         checks.append(("sample sex", bool(got.get("is_sample_female")), bool(expect["female"])))
     if expect.get("thresholds") is not None:
         checks.append(("thresholds", [float(x) for x in got.get("thresholds", ())], [float(x) for x in expect["thresholds"]]))
